@@ -275,6 +275,10 @@ Definition run_words (ws : list string) : string :=
                                               (hexlist_of_string principals) (z_of_string after) (z_of_string before)
                                               (cert_options_of_string crit) (cert_options_of_string ext) (hex_or_empty reserved)
                                               (hex_or_empty sigkey) (hex_or_empty sigdata))
+  | ["ssl2chenc"; ciphers; sid; ch] =>
+      "OK " ++ hex_of_bytes (enc_ssl2_client_hello 2 (zlist_of_string ciphers) (hex_or_empty sid) (hex_or_empty ch))
+  | ["ssl2shenc"; hit; ct; cert; ciphers; cid] =>
+      "OK " ++ hex_of_bytes (enc_ssl2_server_hello (z_of_string hit) (z_of_string ct) 2 (hex_or_empty cert) (zlist_of_string ciphers) (hex_or_empty cid))
   | ["sshpad"; l] => "OK " ++ string_of_Z (padding_length (z_of_string l)) ++ " " ++ string_of_Z (packet_length (z_of_string l))
   | ["mpintspec"; z] => "OK " ++ hex_of_bytes (enc_mpint (z_of_string z))
   | ["kexenc"; cookie; lists; f; res] =>
@@ -283,6 +287,7 @@ Definition run_words (ws : list string) : string :=
   | ["hasshpre"; h; side] => match dec_kexinit (bytes_of_hex h) with
                              | Some (_, ls, _, _) => "OK " ++ hex_of_bytes (hassh_text ls (String.eqb side "s"))
                              | None => "NONE" end
+  | ["rsablobn"; nm; e; n] => "OK " ++ hex_of_bytes (enc_rsa_blob_named (bytes_of_hex nm) (z_of_string e) (z_of_string n))
   | ["rsablob"; e; n] => "OK " ++ hex_of_bytes (enc_rsa_blob (z_of_string e) (z_of_string n))
   | ["dssblob"; p; q; g; y] => "OK " ++ hex_of_bytes (enc_dss_blob (z_of_string p) (z_of_string q) (z_of_string g) (z_of_string y))
   | ["edblob"; k] => "OK " ++ hex_of_bytes (enc_ed25519_blob (bytes_of_hex k))
